@@ -2898,30 +2898,36 @@ def rule_resolve(sink, eng: Engine):
     sink.floor("resolve_miss_paths", 1)
     sink.require(len(tables) == 1, "Analysis._resolve_method uses more than one table: %s" % sorted(tables))
     table = tables.pop()
-    # ---- the same table is filled by Analysis.add with the same key shape ---------------------------
-    fa = eng.func(ANALYSIS, "Analysis.add")
-    sink.analysed(fa)
+    # ---- the same table is filled (by Analysis.add, a helper of it, or a pre-fill of create_xref) with the same key shape
     n = 0
-    for st in Exec(eng, root_cls=A).run(fa):
-        if st.raised:
-            continue
-        for e in st.events:
-            if e.kind == "store_sub" and e.base == ("attr", ROOT_SELF, table):
-                n += 1
-                key = e.key
-                comps = key[1:] if key[0] == "tuple" else ()
-                meth = None
-                if e.value[0] == "sub" and e.value[1] == ("attr", ROOT_SELF, "methods"):
-                    meth = e.value[2]
-                roles = [_add_key_role(c, meth) for c in comps]
-                ok = roles == ["class_name", "name", "descriptor"]
-                sink.check("resolution", "Analysis.add key", ok, fa, "add key (%s)" % ", ".join(r or "?" for r in roles),
-                           "Analysis.add fills %s with the key (%s); _resolve_method looks up (class_name, name, descriptor)" % (
-                               table, ", ".join(show(c) for c in comps)), node=e.node,
-                           detail="add key = (class name, method name, str(descriptor)) of the method stored")
-        break
+    seen_keys = set()
+    for qn, ni in (("Analysis.add", ()), ("Analysis.create_xref", ("_create_xref",))):
+        fa = eng.func(ANALYSIS, qn)
+        sink.analysed(fa)
+        for st in Exec(eng, root_cls=A, no_inline=ni).run(fa):
+            if st.raised:
+                continue
+            for e in st.events:
+                if e.kind == "store_sub" and e.base == ("attr", ROOT_SELF, table):
+                    key = e.key
+                    if key in seen_keys:
+                        continue
+                    seen_keys.add(key)
+                    n += 1
+                    comps = key[1:] if key[0] == "tuple" else ()
+                    meth = None
+                    if e.value[0] == "sub" and e.value[1] == ("attr", ROOT_SELF, "methods"):
+                        meth = e.value[2]
+                    roles = [_add_key_role(c, meth) for c in comps]
+                    ok = roles == ["class_name", "name", "descriptor"]
+                    sink.check("resolution", "table fill key", ok, e.func, "fill key (%s)" % ", ".join(r or "?" for r in roles),
+                               "%s fills %s with the key (%s); _resolve_method looks up (class_name, name, descriptor)" % (
+                                   e.func.qualname, table, ", ".join(show(c) for c in comps)), node=e.node,
+                               detail="fill key = (class name, method name, str(descriptor)) of the method stored")
     sink.count("add_table_stores", n)
-    sink.floor("add_table_stores", 1)
+    sink.check("resolution", "table is filled with the analysed methods", n >= 1, f, "self.%s is never filled" % table,
+               "neither Analysis.add (helpers included) nor create_xref stores the analysed methods into self.%s: _resolve_method can only ever return external stubs" % table,
+               node=f.node, detail="self.%s[(class, name, descriptor)] = MethodAnalysis for every analysed method" % table)
     sink.assume("str(EncodedMethod.get_descriptor()) and ''.join(MethodIdItem.get_proto()) denote the same descriptor string")
     return table
 
@@ -3130,6 +3136,12 @@ def rule_add_effects(sink, eng: Engine):
                 ok_val = val[0] == "new"
                 if not ok_val and val[0] == "sub" and val[1][0] == "attr" and val[1][1] == ROOT_SELF:
                     ok_val = fresh.get((val[1][2], val[2])) is True
+                    if not ok_val and e.func.qualname != f.qualname:
+                        # inside a helper: an alias of the entry another table holds for the same item
+                        k2 = val[2]
+                        ok_val = (any(isinstance(x, tuple) and x and x[0] == "elem" and mentions(x, VM) for x in subterms(k2))
+                                  and not _table_uses(k2, tables)
+                                  and not any(isinstance(x, tuple) and x and x[0] in ("enumidx", "carried") for x in subterms(k2)))
                 k = (table, "val", val)
                 if k not in seen:
                     seen.add(k)
@@ -3164,9 +3176,101 @@ def rule_add_effects(sink, eng: Engine):
                                "Analysis.add has the positional effect self.%s.%s(%s); the only order-dependent state allowed is the list of DEX objects" % (
                                    e.recv[2], e.name, ", ".join(_vrender(a, VM) for a in e.args)), node=e.node,
                                detail="the only positional effect: the DEX object is appended to the list create_xref enumerates")
-    sink.floor("keyed_stores", 4)
     sink.floor("positional_effects", 1)
     return tables
+
+
+def _enclosing_loops(node, func_node):
+    out = []
+    n = getattr(node, "_parent", None)
+    while n is not None and n is not func_node:
+        if isinstance(n, (ast.For, ast.AsyncFor, ast.While)):
+            out.append(n)
+        n = getattr(n, "_parent", None)
+    return out
+
+
+def read_tables(xm: XrefModel, resolve_states):
+    """tables of the Analysis that _create_xref / _resolve_method read (membership test, lookup) to resolve a definition"""
+    out = set()
+    groups = [[p.state for p in xm.paths if not p.state.raised]] + [sts for _, sts in resolve_states]
+    for states in groups:
+        for st in states:
+            terms = [c[0] for c in st.conds]
+            for e in st.events:
+                terms += [c[0] for c in e.conds]
+                for t in (e.recv, e.value if e.kind != "iter_end" else None) + tuple(e.args):
+                    if isinstance(t, tuple):
+                        terms.append(t)
+            for t in terms:
+                for x in subterms(t):
+                    if isinstance(x, tuple) and len(x) == 3 and x[0] == "attr" and x[1] == ROOT_SELF:
+                        out.add(x[2])
+    return out
+
+
+def rule_fill_before_xref(sink, eng: Engine, xm: XrefModel, resolve_states, only_tables=None):
+    """Every table that _create_xref / _resolve_method read must be completely filled -- for all DEX files -- before the
+    first _create_xref call: its item-derived stores may sit in Analysis.add (helpers followed), or in create_xref in a
+    loop over all of self.vms that ends before the xref loop starts, never in a loop that also creates xrefs."""
+    m = eng.mod(ANALYSIS)
+    A = m.cls("Analysis")
+    f = eng.func(ANALYSIS, "Analysis.create_xref")
+    sink.analysed(f)
+    reads = read_tables(xm, resolve_states)
+    if only_tables is not None:
+        reads &= set(only_tables)
+    VMS = ("attr", ROOT_SELF, "vms")
+    seen = set()
+    n_fill = 0
+    for st in Exec(eng, root_cls=A, no_inline=("_create_xref",)).run(f):
+        if st.raised:
+            continue
+        xref_calls = [(i, e) for i, e in enumerate(st.events) if e.kind == "call" and e.name == "_create_xref" and e.recv == ROOT_SELF]
+        xref_loops = set()
+        for _, e in xref_calls:
+            xref_loops |= {id(l) for l in _enclosing_loops(e.root_node(), f.node)}
+        first_xref = min([i for i, _ in xref_calls], default=None)
+        for i, e in enumerate(st.events):
+            table = None
+            if e.kind == "store_sub" and e.base[0] == "attr" and e.base[1] == ROOT_SELF:
+                table = e.base[2]
+            elif e.kind == "call" and e.name in MUTATORS and e.recv is not None and e.recv[0] == "attr" and e.recv[1] == ROOT_SELF:
+                table = e.recv[2]
+            if table is None or table not in reads:
+                continue
+            for q in e.chain():
+                fn = m.functions.get(q)
+                if fn is not None:
+                    sink.analysed(fn)
+            where = "/".join(e.chain())
+            k = (table, where, e.kind)
+            if k in seen:
+                continue
+            seen.add(k)
+            n_fill += 1
+            sink.count("keyed_stores")
+            loops = _enclosing_loops(e.root_node(), f.node)
+            shared = [l for l in loops if id(l) in xref_loops]
+            late = first_xref is not None and i > first_xref
+            what = "self.%s[%s] = %s" % (table, show(e.key)[:80], show(e.value)[:80]) if e.kind == "store_sub" else "self.%s.%s(...)" % (table, e.name)
+            ok = not shared and not late
+            sink.check("fill-before-xref", "self.%s filled in %s" % (table, where), ok, f, "self.%s filled via %s inside the xref loop" % (table, where) if shared else "self.%s filled via %s after xref creation started" % (table, where),
+                       "%s (in %s) fills self.%s %s: while the classes of one DEX are cross-referenced, the entries of the DEX files added later "
+                       "are still missing, so what _create_xref/_resolve_method find depends on the add order (e.g. calls into a later DEX resolve to ExternalMethod stubs)" % (
+                           what, where, table, "once per DEX inside the loop of create_xref that also calls _create_xref" if shared else "after the first _create_xref call"),
+                       node=e.root_node(), detail="self.%s is filled for all DEX files before the first _create_xref call" % table)
+            if ok:
+                # a complete pre-fill: the loop must range over all of self.vms and the key be derived from the item
+                outer = loops[-1] if loops else None
+                full = outer is not None and isinstance(outer, ast.For) and ast.unparse(outer.iter).replace(" ", "") in ("self.vms",)
+                item = e.kind == "store_sub" and any(isinstance(x, tuple) and x and x[0] == "elem" and mentions(x, ("elem", VMS)) for x in subterms(e.key)) \
+                    and not any(isinstance(x, tuple) and x and x[0] in ("enumidx", "carried") for x in subterms(e.key))
+                sink.check("fill-before-xref", "self.%s pre-fill is complete" % table, full and item, f, "pre-fill of self.%s via %s" % (table, where),
+                           "create_xref fills self.%s before the xref loop, but not for every DEX of self.vms with an item-derived key (%s)" % (table, what),
+                           node=e.root_node(), detail="pre-fill ranges over all of self.vms")
+    sink.count("xref_phase_fills", n_fill)
+    return n_fill
 
 
 def _vrender(t, VM):
